@@ -132,6 +132,18 @@ def run_one(ck, prog):
         ck.ob("C16.1", "next-header-step-uses-the-aligned-length", not raw_steps, fn=it[0]["path"], site=span_str(raw_steps[0][0]) if raw_steps else None,
               detail=f"the traversal adds an unaligned cmsg_len ({raw_steps[0][1] if raw_steps else ''}): CMSG_NXTHDR must step by (cmsg_len + 7) & !7, otherwise a message whose payload is not a multiple of 8 bytes makes the next header start inside its padding")
 
+        # descriptors are handed out only from a header that says so: SOL_SOCKET / SCM_RIGHTS (another socket-level message, e.g. the
+        # credentials a receiver with SO_PASSCRED gets first, carries pid/uid/gid - not descriptors)
+        yields = [b["id"] for b in it[0]["blocks"] if b["id"] in ctx.cfg.live_blocks() and not b.get("cleanup") and
+                  any(st["k"] == "assign" and st["rv"]["k"] == "agg" and st["rv"].get("variant") == "ScmRights" for st in b["stmts"])]
+        ck.floor("C16.1", "ScmRights yields", len(yields), 1)
+        for yb in yields:
+            facts = panics.dominating_facts(ctx, yb)
+            def tested(fld):
+                return any(f[0] == "cmp" and f[1] == "Eq" and ((fold(f[3]) == 1 and mentions(f[2], ctx.prov, lambda z: z[0] == "field" and z[2] == fld)) or (fold(f[2]) == 1 and mentions(f[3], ctx.prov, lambda z: z[0] == "field" and z[2] == fld))) for f in facts)
+            ck.ob("C16.1", "descriptors-only-from-an-scm-rights-header|level", tested("cmsg_level"), fn=it[0]["path"], site=ctx.site(yb), detail="ScmRights may be produced only under cmsg_level == SOL_SOCKET (1)")
+            ck.ob("C16.1", "descriptors-only-from-an-scm-rights-header|type", tested("cmsg_type"), fn=it[0]["path"], site=ctx.site(yb), detail="ScmRights may be produced only under cmsg_type == SCM_RIGHTS (1); other socket-level ancillary data would be decoded as descriptors that were never passed")
+
     # the first header exists only if the RECEIVED control length holds one: msg_control is looked at only under msg_controllen >= size_of(cmsghdr)
     cm = [f for p2, f in prog.fns.items() if p2.startswith("rusl::platform::compat::socket::MsgHdrBorrow") and p2.endswith("::control_messages")]
     if ck.config == "C" and not cm:
